@@ -325,3 +325,198 @@ mod tests {
         let _ = Command::try_from("");
     }
 }
+
+/// Verification façade (only with `--cfg lace_verif`): the parser's verdict on a command line, and
+/// the sequence of verdicts for a whole script read through [`CommandReader`], as plain numbers.
+///
+/// Verdict: `0 kind args..` command | `1 error..` rejected | `4` blank line (skipped).
+///  - kind: index of [`CommandName`] in declaration order
+///  - location: `0 r` register | `1 off` PC offset | `2 addr` address | `3 off len chars..` label
+///    (offsets as 16-bit two's complement)
+///  - error: `0 sug` not a command | `1` missing subcommand | `2 parent sug` invalid subcommand
+///    (parent: 0 step, 1 break) | `3 kind arg-error..` (sug: 0 none, 1 + kind)
+///  - arg-error: `0` missing list | `1 exp act` missing | `2 exp act` too many | `3 value-error..`
+///  - value-error: `0 naive` mismatched type (0 integer, 1 register, 2 label, 3 PC offset) |
+///    `1` value | `2` integer | `3` label | `4` register | `5 max` too large
+#[cfg(lace_verif)]
+pub mod verif_access {
+    use super::parse::NaiveType;
+    use super::*;
+    use std::cell::RefCell;
+
+    fn name_id(name: CommandName) -> u64 {
+        name as u64
+    }
+
+    fn text(out: &mut Vec<u64>, s: &str) {
+        out.push(s.chars().count() as u64);
+        out.extend(s.chars().map(|c| c as u64));
+    }
+
+    fn memory_location(out: &mut Vec<u64>, location: &MemoryLocation) {
+        match location {
+            MemoryLocation::PCOffset(offset) => out.extend([1, *offset as u16 as u64]),
+            MemoryLocation::Address(address) => out.extend([2, *address as u64]),
+            MemoryLocation::Label(label) => {
+                out.extend([3, label.offset as u16 as u64]);
+                text(out, label.name);
+            }
+        }
+    }
+
+    fn location(out: &mut Vec<u64>, location: &Location) {
+        match location {
+            Location::Register(register) => out.extend([0, *register as u16 as u64]),
+            Location::Memory(memory) => memory_location(out, memory),
+        }
+    }
+
+    fn command(command: &Command) -> Vec<u64> {
+        let mut out = vec![0];
+        match command {
+            Command::Help => out.push(0),
+            Command::StepOver => out.push(1),
+            Command::StepInto { count } => out.extend([2, *count as u64]),
+            Command::StepOut => out.push(3),
+            Command::Continue => out.push(4),
+            Command::Registers => out.push(5),
+            Command::Print { location: l } => {
+                out.push(6);
+                location(&mut out, l);
+            }
+            Command::Move { location: l, value } => {
+                out.push(7);
+                location(&mut out, l);
+                out.push(*value as u64);
+            }
+            Command::Goto { location: l } => {
+                out.push(8);
+                memory_location(&mut out, l);
+            }
+            Command::Assembly { location: l } => {
+                out.push(9);
+                memory_location(&mut out, l);
+            }
+            Command::Eval { instruction } => {
+                out.push(10);
+                text(&mut out, instruction);
+            }
+            Command::Echo { string } => {
+                out.push(11);
+                text(&mut out, string);
+            }
+            Command::Reset => out.push(12),
+            Command::Quit => out.push(13),
+            Command::Exit => out.push(14),
+            Command::BreakList => out.push(15),
+            Command::BreakAdd { location: l } => {
+                out.push(16);
+                memory_location(&mut out, l);
+            }
+            Command::BreakRemove { location: l } => {
+                out.push(17);
+                memory_location(&mut out, l);
+            }
+        }
+        out
+    }
+
+    fn suggestion(suggested: &Option<CommandName>) -> u64 {
+        suggested.map_or(0, |name| 1 + name_id(name))
+    }
+
+    fn value_error(out: &mut Vec<u64>, error: &error::Value) {
+        match error {
+            error::Value::MismatchedType { actual_type, .. } => out.extend([
+                0,
+                match actual_type {
+                    NaiveType::Integer => 0,
+                    NaiveType::Register => 1,
+                    NaiveType::Label => 2,
+                    NaiveType::PCOffset => 3,
+                },
+            ]),
+            error::Value::MalformedValue {} => out.push(1),
+            error::Value::MalformedInteger {} => out.push(2),
+            error::Value::MalformedLabel {} => out.push(3),
+            error::Value::MalformedRegister {} => out.push(4),
+            error::Value::IntegerTooLarge { max } => out.extend([5, *max as u64]),
+        }
+    }
+
+    fn argument_error(out: &mut Vec<u64>, error: &error::Argument) {
+        match error {
+            error::Argument::MissingArgumentList { .. } => out.push(0),
+            error::Argument::MissingArgument {
+                expected_count,
+                actual_count,
+                ..
+            } => out.extend([1, *expected_count as u64, *actual_count as u64]),
+            error::Argument::TooManyArguments {
+                expected_count,
+                actual_count,
+            } => out.extend([2, *expected_count as u64, *actual_count as u64]),
+            error::Argument::InvalidValue { error, .. } => {
+                out.push(3);
+                value_error(out, error);
+            }
+        }
+    }
+
+    fn command_error(error: &error::Command) -> Vec<u64> {
+        let mut out = vec![1];
+        match error {
+            error::Command::InvalidCommand { suggested, .. } => {
+                out.extend([0, suggestion(suggested)]);
+            }
+            error::Command::MissingSubcommand { .. } => out.push(1),
+            error::Command::InvalidSubcommand {
+                command_name,
+                suggested,
+                ..
+            } => out.extend([
+                2,
+                if *command_name == "step" { 0 } else { 1 },
+                suggestion(suggested),
+            ]),
+            error::Command::InvalidArgument {
+                command_name,
+                error,
+            } => {
+                out.extend([3, name_id(*command_name)]);
+                argument_error(&mut out, error);
+            }
+        }
+        // The message shown to the user must render
+        let _ = error.to_string();
+        out
+    }
+
+    /// What `Command::read_from` does with one line handed over by a reader.
+    pub fn parse_line(raw: &str) -> Vec<u64> {
+        let line = raw.trim();
+        if line.is_empty() {
+            return vec![4];
+        }
+        match Command::try_from(line) {
+            Ok(parsed) => command(&parsed),
+            Err(error) => command_error(&error),
+        }
+    }
+
+    /// Every command and every rejection, in order, that a debugger session obtains from the
+    /// `--command` argument followed by the (injected, see `verif::arm`) standard input.
+    pub fn read_all(argument: Option<String>, sink: &mut Vec<Vec<u64>>) {
+        let mut reader = CommandReader::verif_piped(argument);
+        let sink = RefCell::new(sink);
+        loop {
+            let parsed = Command::read_from(&mut reader, |error| {
+                sink.borrow_mut().push(command_error(&error));
+            });
+            match parsed {
+                Some(parsed) => sink.borrow_mut().push(command(&parsed)),
+                None => break,
+            }
+        }
+    }
+}
